@@ -226,7 +226,7 @@ type Case struct {
 	Leaves []LeafPlan `json:"leaves"`      // in the order of leavesOf
 }
 
-var prefixes = []string{"app", "APP", "My_App", "my-app", "svc9", "app_", "my_app"}
+var prefixes = []string{"app", "APP", "My_App", "my-app", "svc9", "app_", "my_app", ""}
 
 func genCase(t *rapid.T) Case {
 	c := Case{Family: rapid.SampledFrom(families).Draw(t, "family"), Prefix: rapid.SampledFrom(prefixes).Draw(t, "prefix"), File: rapid.SampledFrom([]string{"json", "yaml"}).Draw(t, "file")}
@@ -287,6 +287,9 @@ func asString(v interface{}) string {
 }
 
 func envName(prefix string, l leafInfo) string {
+	if prefix == "" {
+		return strings.ToUpper(strings.Join(l.TagPath, "_"))
+	}
 	return strings.ToUpper(prefix + "_" + strings.Join(l.TagPath, "_"))
 }
 
